@@ -13,10 +13,18 @@ package batch
 // cloneSub(r, k, v) replaces every occurrence of the variable k in r by v:
 // the variable itself, and inside records at every key (sets: see DESIGN).
 //@ spec func isVarKey(r types.Value, k types.String) bool = (r is types.EntityUID) && r.(types.EntityUID).Type == types.EntityType("__cedar::variable") && r.(types.EntityUID).ID == k
+// mentions(r, k): the variable k occurs in r (at any depth). Whether cloneSub reports a change
+// depends only on that, not on the value substituted (doBatch probes with a dummy value).
+//@ spec func mentions(r types.Value, k types.String) bool
+//@ axiom mentions_entity: forall r types.Value, k types.String :: { mentions(r, k) } (r is types.EntityUID) ==> (mentions(r, k) == isVarKey(r, k))
+//@ axiom mentions_record: forall r types.Value, k types.String :: { mentions(r, k) } (r is types.Record) ==> (mentions(r, k) == (exists kk types.String :: has(r.(types.Record).m, kk) && mentions(r.(types.Record).m[kk], k)))
+//@ axiom mentions_set: forall r types.Value, k types.String :: { mentions(r, k) } (r is types.Set) ==> (mentions(r, k) == (exists x types.Value :: iter_Set_All(r.(types.Set), x) && mentions(x, k)))
+//@ axiom mentions_scalar: forall r types.Value, k types.String :: { mentions(r, k) } (!(r is types.EntityUID) && !(r is types.Record) && !(r is types.Set)) ==> !mentions(r, k)
 //@ func cloneSub
 //@   props C05
 //@   pure
 //@   results out, changed
+//@   ensures flag: changed == mentions(r, k)
 //@   ensures entity: (r is types.EntityUID) ==> (changed == isVarKey(r, k) && out == (isVarKey(r, k) ? v : r))
 //@   ensures record_keys: (r is types.Record) ==> ((out is types.Record) && (forall kk types.String :: has(out.(types.Record).m, kk) == has(r.(types.Record).m, kk)))
 //@   ensures record_vals: (r is types.Record) ==> (forall kk types.String :: has(r.(types.Record).m, kk) ==> out.(types.Record).m[kk] == cloneSub#0(r.(types.Record).m[kk], k, v))
@@ -24,7 +32,12 @@ package batch
 //@   ensures scalar: (!(r is types.EntityUID) && !(r is types.Record) && !(r is types.Set)) ==> (out == r && !changed)
 //@   loop 1
 //@     invariant isnil(newMap) ==> (forall kk types.String :: $done[kk] ==> cloneSub#0(t.m[kk], k, v) == t.m[kk])
+//@     invariant isnil(newMap) ==> (forall kk types.String :: $done[kk] ==> !mentions(t.m[kk], k))
+//@     invariant !isnil(newMap) ==> mentions(r, k)
 //@     invariant !isnil(newMap) ==> ((forall kk types.String :: has(newMap, kk) == has(t.m, kk)) && (forall kk types.String :: has(t.m, kk) ==> newMap[kk] == ($done[kk] ? cloneSub#0(t.m[kk], k, v) : t.m[kk])))
+//@   loop 2
+//@     invariant !hasDeltas ==> (forall x types.Value :: $done[x] ==> !mentions(x, k))
+//@     invariant hasDeltas ==> mentions(r, k)
 
 // ------------------------------------------- final authorization (C05)
 // The decision rule batch applies to the residual policies is the rule of
@@ -86,5 +99,7 @@ package batch
 //@   requires be != nil
 //@   results err
 //@   ensures restored: err == nil ==> (be.Variables == old(be.Variables) && be.Values == old(be.Values) && be.env == old(be.env) && be.policies == old(be.policies) && be.callback == old(be.callback))
+//@   assert before "err := doBatch(ctx, be)" substituted: be.env.Principal == cloneSub#0(loopEnv.Principal, u.Key, v) && be.env.Action == cloneSub#0(loopEnv.Action, u.Key, v) && be.env.Resource == cloneSub#0(loopEnv.Resource, u.Key, v) && be.env.Context == cloneSub#0(loopEnv.Context, u.Key, v) && be.env.Entities == loopEnv.Entities
 //@   loop 1
 //@     invariant be != nil && prevState == entry(*be)
+//@     invariant chPrincipal == cloneSub#1(loopEnv.Principal, u.Key, types.Value(types.Boolean(true))) && chAction == cloneSub#1(loopEnv.Action, u.Key, types.Value(types.Boolean(true))) && chResource == cloneSub#1(loopEnv.Resource, u.Key, types.Value(types.Boolean(true))) && chContext == cloneSub#1(loopEnv.Context, u.Key, types.Value(types.Boolean(true)))
